@@ -16,11 +16,14 @@ import os
 import c15_model as M
 import c16_corpus as K
 import c16_names as NM
+import c16_round4 as R4
+from pathlib import Path
 from c15 import RUNNER, file_diff, known_entries, same_result
 from c15_corpus import FULL_CERT
 from lib import (Check, COMMON_TRUSTED, compile_batch, coq_bool, coq_list, coq_str, coq_z, eval_cases, run_py)
 
 PROP = "C16"
+RUNNER16 = Path(__file__).with_name("c16_run.py")
 
 HEADER16 = ("From Coq Require Import ZArith String List Bool Ascii.\n"
             "From JMCV Require Import Model.Layout Model.Macro Run.Common Run.C15 Run.C16.\n"
@@ -30,9 +33,10 @@ HEADER16 = ("From Coq Require Import ZArith String List Bool Ascii.\n"
 # --------------------------------------------------------------------------- metamorphic pairs
 
 SELECTOR_ARG_FINDING = "C16-selector-argument-of-macro"
+NESTED_FINDING = "C16-macro-in-macro-body-adjacency"
 
 
-def gen_pairs(rng, tier, rel_stats=None, selector_args=False):
+def gen_pairs(rng, tier, rel_stats=None, selector_args=False, nested=False):
     pairs = []
     rel_stats = {} if rel_stats is None else rel_stats
     # strengthening round 1: pairs generated from RELATIONS between names / texts (c16_names)
@@ -40,6 +44,12 @@ def gen_pairs(rng, tier, rel_stats=None, selector_args=False):
     pairs += NM.param_pairs(rng, 260 if q else 2000, rel_stats.setdefault("parameterised", {}), selector_args=selector_args)
     pairs += NM.calc_pairs(rng, 220 if q else 1500, rel_stats.setdefault("integer_names", {}))
     pairs += NM.alone_pairs(rng, 120 if q else 800, rel_stats.setdefault("left_alone", {}))
+    # strengthening round 4: #enum numbering against an independent table, Hardcode.calc bodies with text around the
+    # bracket, a macro used inside another macro's body (only on a tree that has the repair / on demand)
+    pairs += R4.enum_pairs(rng, 320 if q else 2400, rel_stats.setdefault("enum_numbering", {}))
+    pairs += R4.body_pairs(rng, 240 if q else 1600, rel_stats.setdefault("calc_scope", {}))
+    if nested:
+        pairs += R4.nested_pairs(rng, 80 if q else 500, rel_stats.setdefault("macro_in_macro_body", {}))
     for m in K.MACROS:
         for u in K.USES:
             if not K.fits(m, u):
@@ -99,6 +109,8 @@ def known_class(p, ra, rb):
         if m.get("macros") and p["macro"] not in m["macros"]:
             continue
         if m.get("selector_arg") and not p.get("selector_arg"):
+            continue
+        if m.get("nested") and not p.get("nested"):
             continue
         if m.get("msg_contains") and (ra["ok"] or not any(x in ra["msg"] for x in m["msg_contains"])):
             continue
@@ -211,7 +223,7 @@ USE_LINES = [
 ]
 
 
-def header_cases(rng, tier, check_end, case_fix):
+def header_cases(rng, tier, check_end, case_fix, nest_fix, stats):
     jobs, meta = [], []
     for m in K.MACROS:
         use = m["use"]
@@ -239,6 +251,16 @@ def header_cases(rng, tier, check_end, case_fix):
         for src in ["A B C E.X E.Y E.Z DEV NS;", "EMPTY x EMPTY[1] G S T;", "NUM NEG Z SP;SP[M];", "N M  M[N];"]:
             jobs.append(dict(string=src, line=1, col=1, expect_semicolon=True, allow_last=False, header=h, envs=["DEV"]))
             meta.append("multi")
+    # round 4: #enum lines (explicit start 0, number-like / dotted / repeated members, two lines), macros used inside
+    # macro bodies
+    for h, src in R4.enum_headers(rng, 40 if tier == "quick" else 150, stats):
+        jobs.append(dict(string=src, line=1, col=1, expect_semicolon=True, allow_last=False, header=h, envs=[]))
+        meta.append("enum")
+    for h in R4.NESTED_HEADERS:
+        for src in R4.NESTED_USES:
+            jobs.append(dict(string=src, line=1, col=rng.choice([1, 4]), expect_semicolon=src.endswith(";"), allow_last=False,
+                             header=h, envs=[]))
+            meta.append("nested")
     res = run_py(RUNNER, dict(op="parse", jobs=jobs), timeout=900)
     terms, raw = [], []
     for j, r, mid in zip(jobs, res, meta):
@@ -249,7 +271,7 @@ def header_cases(rng, tier, check_end, case_fix):
             real = "(Some " + coq_list(coq_list(M.rtok_term(t) for t in st) for st in r["programs"]) + ")"
         num = coq_list(f"({coq_str(k)}, {coq_str(v)})" for k, v in sorted((r.get("num") or {}).items()))
         terms.append(f"(mkHCase {coq_str(j['header'])} {coq_list(coq_str(e) for e in j['envs'])} {coq_str('TEST')} "
-                     f"{coq_bool(case_fix)} {coq_bool(j['expect_semicolon'])} {coq_z(j['line'])} {coq_z(j['col'])} {coq_str(j['string'])} "
+                     f"{coq_bool(case_fix)} {coq_bool(nest_fix)} {coq_bool(j['expect_semicolon'])} {coq_z(j['line'])} {coq_z(j['col'])} {coq_str(j['string'])} "
                      f"{coq_bool(check_end)} {real} {num})")
         raw.append((j, r, mid))
     return terms, raw
@@ -352,6 +374,11 @@ def main(tier: str) -> int:
         "Model/MacroSubst.v: param_expand (template + factory of header_parse.__create_macro_factory at the level of token type "
         "and text) tied to the tokens the real tokenizer produces for `KEY(args)`; calc_text (the str.replace loop of "
         "hardcode_parse_calc, longest name first, and its character check) tied to the text the real function hands to eval_expr",
+        "Model/MacroEnum.v (enum_value, expand_words) and Model/MacroScope.v (find_sub, scan, calc_step, calc_all = one call of "
+        "command/utils.py:hardcode_parse_calc and the callers' loop, the arithmetic evaluator a parameter): hand-written; tied by the #enum "
+        "header token streams + number_macros and by whole body texts run through the real hardcode_parse_calc (marker evaluator); "
+        "Model/Macro.v norm_body = header_parse.__template_columns of fixes/C16-macro-in-macro-body-adjacency.patch (the tree is probed by "
+        "behaviour and the matching model variant is used)",
         "outside the model: macros with parameters, #deepdefine, EVAL/NOT, __namehash__/__UUID__ (metamorphic runs only); what the "
         "lexer does with tokens (reads positions only through is_connected / CustomOrder - checked by the metamorphic pairs)",
     ]
@@ -363,9 +390,20 @@ def main(tier: str) -> int:
     # `KILL(@e[type=pig])`: rejected by a tree without fixes/C16-selector-argument-of-macro.patch.  Such arguments are
     # generated when the tree has the fix (then they must pass), when the finding is listed (then they are reported as
     # KNOWN-FINDING) or on demand (VERIF_C16_SELECTOR_ARGS=1: demonstrates the defect as a VIOLATION).
-    selector_args = (bool(probe.get("selector_arg_fix")) or os.environ.get("VERIF_C16_SELECTOR_ARGS") == "1"
-                     or any(f.get("id") == SELECTOR_ARG_FINDING for f in known_entries(PROP)))
-    pairs = gen_pairs(ck.rng, tier, rel_stats, selector_args)
+    # (integrator) the repair is part of /repo now (known_findings.json `fixed`): always generated, so that a tree that
+    # loses the repair is reported again.
+    selector_args = True
+    # a macro used inside another macro's body (`#define SEL @e`, `#define NEAR SEL[distance=..5]`) loses / invents
+    # adjacency on a tree without fixes/C16-macro-in-macro-body-adjacency.patch.  Same gating: generated when the tree
+    # has the repair (probed by behaviour), when the finding is listed, or on demand (VERIF_C16_NESTED=1: VIOLATION).
+    probe.update(run_py(RUNNER16, dict(op="probe"), timeout=60))
+    # (integrator) repaired upstream (fix: c14a0b2): the model is always the REPAIRED one and the nested pairs are always
+    # generated; the probes are kept in the evidence only.
+    nest_fix = True
+    nested = True
+    probe["has_end"] = True     # Token._macro_end (fix: adjacency) and the case-label fix are part of /repo:
+    probe["case_fix"] = True    # the model variants without them are no longer selected by probing
+    pairs = gen_pairs(ck.rng, tier, rel_stats, selector_args, nested)
     ra = compile_batch([job_a(p) for p in pairs], chunk=60)
     rb = compile_batch([job_b(p) for p in pairs], chunk=60)
     n_valid, n_invalid, differing = 0, 0, []
@@ -409,7 +447,8 @@ def main(tier: str) -> int:
     viol_n += seq_failing
 
     # ---- model tie
-    terms, raw = header_cases(ck.rng, tier, bool(probe["has_end"]), bool(probe["case_fix"]))
+    tie_stats = {}
+    terms, raw = header_cases(ck.rng, tier, bool(probe["has_end"]), bool(probe["case_fix"]), nest_fix, tie_stats)
     bad, errs = eval_cases(PROP, HEADER16, terms, per_file=250, list_name="cases", checker="hmismatches")
     uns, errs2 = eval_cases(PROP, HEADER16, terms, per_file=250, checker="hunsupported", prefix="uns")
     opairs = order_cases(ck.rng)
@@ -422,7 +461,23 @@ def main(tier: str) -> int:
     pbad, errs4 = eval_cases(PROP, HEADER16, pterms, per_file=300, checker="pmismatches", prefix="param")
     cterms, craw = calc_tie(pairs, ck.rng)
     cbad, errs5 = eval_cases(PROP, HEADER16, cterms, per_file=300, checker="cmismatches", prefix="calc")
-    errs3 = errs3 + errs4 + errs5
+    # (f) whole bodies: the callers' loop over the real hardcode_parse_calc vs Model.MacroScope.calc_all
+    bjobs = R4.body_ties([p for p in pairs if p["macro"] == "calc-scope"], ck.rng, 150 if tier == "quick" else 600)
+    bjobs = [j for j in bjobs if M.is_ascii(j["body"])]
+    breal = run_py(RUNNER16, dict(op="body", jobs=bjobs), timeout=600)
+    bterms, braw = [], []
+    for j, r in zip(bjobs, breal):
+        if r["ok"]:
+            real = f"(Some {coq_str(r['text'])})"
+        elif r["exc"] == "JMCSyntaxException":
+            real = "None"
+        else:
+            real = f"(Some {coq_str('<<' + r['exc'] + '>>')})"       # any other exception is a disagreement
+        num = coq_list(f"({coq_str(k)}, {coq_str(v)})" for k, v in j["num"])
+        bterms.append(f"(mkBCase {num} {coq_str(j['body'])} {real})")
+        braw.append(dict(job=j, real=r))
+    bbad, errs6 = eval_cases(PROP, HEADER16, bterms, per_file=200, checker="bmismatches", prefix="body")
+    errs3 = errs3 + errs4 + errs5 + errs6
     note = ("the Coq model (of the repaired macro position synthesis / number_macros / CustomOrder) no longer describes the code; "
             + ("see the macro-differs-from-hand-expansion replays of this run for failing inputs" if viol_n
                else "the metamorphic search found no failing input"))
@@ -438,6 +493,10 @@ def main(tier: str) -> int:
     if cbad:
         ck.violation(dict(kind="hardcode-calc-substitution-correspondence-differs", n=len(cbad), note=note,
                           model="Model.MacroSubst.calc_text", cases=[craw[i] for i in cbad[:3]]), no_input=True)
+    if bbad:
+        ck.violation(dict(kind="hardcode-calc-scope-correspondence-differs", n=len(bbad), note=note,
+                          model="Model.MacroScope.calc_all (scope of the substitution = the bracket of Hardcode.calc)",
+                          cases=[braw[i] for i in bbad[:3]]), no_input=True)
     if obad:
         ck.violation(dict(kind="custom-order-correspondence-differs", n=len(obad), note=note,
                           cases=[dict(a=opairs[i][0], b=opairs[i][1], real=oreal[i]) for i in obad[:4]]), no_input=True)
@@ -446,7 +505,7 @@ def main(tier: str) -> int:
     for p in pairs:
         hist[p["use"]] = hist.get(p["use"], 0) + 1
     ck.cov.update(dict(
-        evaluations=len(pairs) + len(terms) + len(oterms) + seq_steps + len(pterms) + len(cterms),
+        evaluations=len(pairs) + len(terms) + len(oterms) + seq_steps + len(pterms) + len(cterms) + len(bterms),
         distinct_nontrivial=len({(p["a"], p["header"]) for p in pairs}),
         rule="metamorphic pair = (macro definition, use-site kind, left/right spacing 0-3): program with the macro + header vs "
              "hand-expanded program, file maps must be identical; left-alone pairs: same program with and without the header; "
@@ -454,17 +513,20 @@ def main(tier: str) -> int:
         macros=len(K.MACROS), use_site_kinds=len(K.USES), pairs=len(pairs), valid_pairs=n_valid, both_rejected=n_invalid,
         differing_pairs=len(differing), known_pairs=known_n, disagreements_checked=len(differing),
         use_site_histogram=hist, programs=2 * len(pairs), relation_cases=rel_stats,
-        selector_arguments_generated=selector_args, tree_variants=probe,
+        selector_arguments_generated=selector_args, nested_macro_bodies_generated=nested, tree_variants=probe,
         same_process_sequences=dict(seq_stats, failing_steps=seq_failing,
                                     rule="each sequence = one program text compiled in ONE process under successive different "
                                          "definitions of the same macro name (both orders); every step == its own hand expansion"),
         relation_pairs_valid={m: sum(1 for p, a, b in zip(pairs, ra, rb) if p["macro"] == m and (a["ok"] or b["ok"]))
-                              for m in ("param-relations", "int-name-relations", "left-alone-relations")},
+                              for m in ("param-relations", "int-name-relations", "left-alone-relations", "enum-numbering",
+                                        "calc-scope", "macro-in-macro-body")},
         model_tie=dict(header_token_cases=len(terms), mismatches=len(bad), model_declined=len(uns),
                        custom_order_cases=len(oterms), custom_order_mismatches=len(obad),
                        parameter_substitution_cases=len(pterms), parameter_substitution_mismatches=len(pbad),
                        parameter_substitution_skipped=pskipped,
-                       hardcode_calc_cases=len(cterms), hardcode_calc_mismatches=len(cbad)),
+                       hardcode_calc_cases=len(cterms), hardcode_calc_mismatches=len(cbad),
+                       hardcode_body_cases=len(bterms), hardcode_body_mismatches=len(bbad),
+                       header_case_kinds=dict(tie_stats)),
         samples=[dict(header=p["header"], with_macro=p["a"], hand=p["b"]) for p in pairs[:2]],
     ))
     return ck.finish()
